@@ -6,6 +6,7 @@ import Sc3Verif.C17.Lemmas
 import Sc3Verif.C17.GenActions
 import Sc3Verif.C16.Props
 namespace Sc3Verif.C17
+open Sc3Verif.C16 (CBA Block Inv Tiles tiles_mem free_inv blocks_eq SameFrame alloc_inv inv_init)
 
 /-! ## conformance to the Server Command Reference -/
 
@@ -640,5 +641,433 @@ theorem bind_preserves_issue_order (cl : Client) (hk : cl.skipDepth = 0) (ops : 
       have := ih (cl.step op).1 h2 hno' (by rw [h1]; exact hr)
       rw [h1, h3] at this
       exact this
+
+/-! ## ids: creation uses the object's own id, freeing returns it exactly once -/
+
+/-- `Synth(...)`: the id returned by `_next_node_id()` is the object's id and the id of its
+    `/s_new` (the only message; `new_paused` adds `/n_run id 0` in the same bundle). -/
+theorem synth_create_uses_own_id (c : Core) (paused : Bool) (name : String) (tgt : Target) (act : Int)
+    (args : Val) (tid : Int) (g : Bool) (a : List Arg)
+    (ht : c.target tgt = some (tid, g)) (ha : synthArgs c args = some a) :
+    let id := c.nextNodeId.2
+    let m : Msg := ⟨"/s_new", as name :: ai id :: ai act :: ai tid :: a⟩
+    c.stepCore (.synth paused name tgt act args) =
+      ({ c.nextNodeId.1 with nodes := c.nodes ++ [⟨id, false⟩] }, .okNode id,
+       if paused then [.bundle none [m, ⟨"/n_run", [ai id, ai 0]⟩]] else [.msg m]) := by
+  simp only [Core.stepCore, ht, ha]
+  cases paused <;> simp [Core.nextNodeId]
+
+/-- `Group(...)` / `ParGroup(...)` -/
+theorem group_create_uses_own_id (c : Core) (par : Bool) (tgt : Target) (act : Int) (tid : Int) (g : Bool)
+    (ht : c.target tgt = some (tid, g)) :
+    let id := c.nextNodeId.2
+    c.stepCore (.group par tgt act) =
+      ({ c.nextNodeId.1 with nodes := c.nodes ++ [⟨id, true⟩] }, .okNode id,
+       [.msg ⟨if par then "/p_new" else "/g_new", [ai id, ai act, ai tid]⟩]) := by
+  simp only [Core.stepCore, ht]
+  simp [Core.nextNodeId]
+
+/-- node ids handed to new objects are the ids of the C16 node id allocator: in the client's
+    range and never repeated within the id window (`C16.node_ids_distinct_in_window`) -/
+theorem next_node_id_is_allocator_id (c : Core) :
+    c.nextNodeId.1.nia = c.nia.alloc.1 ∧
+    (∀ x, c.nia.alloc.2 = some x → c.nextNodeId.2 = (x : Int)) := by
+  refine ⟨rfl, fun x hx => ?_⟩
+  simp only [Core.nextNodeId, hx]
+
+/-- `Buffer(frames, channels)`: the number taken from the buffer allocator is the object's
+    `bufnum` and the first argument of its `/b_alloc`. -/
+theorem buffer_create_uses_own_id (c : Core) (frames ch : Int) (cm : Completion) (a' : CBA) (x : Nat)
+    (hal : allocIn c.balloc 1 = some (a', some x)) :
+    c.stepCore (.buf frames ch none true cm) =
+      ({ c with balloc := a', bufs := c.bufs ++ [⟨some x, some frames, some ch⟩] }, .okBufs [x],
+       [.msg ⟨"/b_alloc", [ai x, ai frames, ai ch, complArg cm x]⟩]) := by
+  simp [Core.stepCore, hal]
+
+/-- `Buffer.new_consecutive(n, ...)`: one `/b_alloc` per number of the allocated block, in
+    ascending order, each with its own number; the objects own exactly these numbers. -/
+theorem consecutive_create_uses_own_ids (c : Core) (n frames ch : Int) (cm : Completion) (a' : CBA) (x : Nat)
+    (hal : allocIn c.balloc n = some (a', some x)) :
+    let ids := (List.range n.toNat).map fun i => ((x + i : Nat) : Int)
+    c.stepCore (.bufcons n frames ch cm) =
+      ({ c with balloc := a', bufs := c.bufs ++ ids.map fun b => ⟨some b, some frames, some ch⟩ },
+       .okBufs ids, ids.map fun b => .msg ⟨"/b_alloc", [ai b, ai frames, ai ch, complArg cm b]⟩) := by
+  simp [Core.stepCore, hal]
+
+/-- `Buffer.free()` of a live buffer: exactly ONE message, `/b_free` with the buffer's own number;
+    the object forgets the number and the allocator no longer holds a block starting there
+    (all other blocks untouched, invariant kept: the number can be handed out again). -/
+theorem buffer_free_once_and_returns_id (c : Core) (h : Nat) (cm : Completion) (b : BufObj) (i : Nat)
+    (bs : List Block) (hb : c.bufs[h]? = some b) (hi : b.bufnum = some (i : Int))
+    (hinv : Inv c.balloc bs) (hr : i < c.balloc.off + c.balloc.size) :
+    ∃ a' bs', c.stepCore (.bfree h cm) =
+        ({ c with balloc := a', bufs := c.bufs.set h ⟨none, none, none⟩ }, .ok,
+         [.msg ⟨"/b_free", [ai i, complArg cm i]⟩]) ∧
+      Inv a' bs' ∧ (∀ u, u.used = true → (u ∈ bs' ↔ u ∈ bs ∧ u.start ≠ i)) ∧
+      (∀ u ∈ a'.blocks, u.start ≠ i) := by
+  obtain ⟨a', bs', e, hi', _, hu⟩ := free_inv hinv (x := i) hr
+  refine ⟨a', bs', ?_, hi', hu, ?_⟩
+  · simp only [Core.stepCore, hb, hi]
+    have : ¬ ((i : Int) < 0) := by omega
+    simp [this, e]
+  · intro u hu'
+    rw [blocks_eq hi'.toWInv] at hu'
+    have := List.mem_filter.mp hu'
+    exact ((hu u (by simpa using this.2)).mp this.1).2
+
+/-- a second `Buffer.free()` (D11): nothing is sent, nothing changes -/
+theorem buffer_double_free_silent (c : Core) (h : Nat) (cm : Completion) (b : BufObj)
+    (hb : c.bufs[h]? = some b) (hi : b.bufnum = none) :
+    c.stepCore (.bfree h cm) = (c, .ok, []) := by
+  simp [Core.stepCore, hb, hi]
+
+theorem blockIds_sorted : ∀ (l : List Block), l.Pairwise (fun b d => b.start + b.size ≤ d.start) →
+    (blockIds l).Pairwise (· < ·) ∧ ∀ x ∈ blockIds l, ∃ b ∈ l, (b.start : Int) ≤ x ∧ x < (b.start + b.size : Nat)
+  | [], _ => by simp [blockIds]
+  | b :: l, hp => by
+    have hp' := List.pairwise_cons.mp hp
+    obtain ⟨ih1, ih2⟩ := blockIds_sorted l hp'.2
+    simp only [blockIds, List.flatMap_cons] at ih1 ih2 ⊢
+    constructor
+    · rw [List.pairwise_append]
+      refine ⟨?_, ih1, ?_⟩
+      · rw [List.pairwise_map]
+        exact (List.pairwise_lt_range).imp (fun h => by omega)
+      · intro x hx y hy
+        simp only [List.mem_map, List.mem_range] at hx
+        obtain ⟨k, hk, rfl⟩ := hx
+        obtain ⟨d, hd, hd1, _⟩ := ih2 y hy
+        have := hp'.1 d hd
+        omega
+    · intro x hx
+      rcases List.mem_append.mp hx with hx | hx
+      · simp only [List.mem_map, List.mem_range] at hx
+        obtain ⟨k, hk, rfl⟩ := hx
+        exact ⟨b, by simp, by omega, by omega⟩
+      · obtain ⟨d, hd, h1, h2⟩ := ih2 x hx
+        exact ⟨d, by simp [hd], h1, h2⟩
+
+/-- `Buffer.free_all()` (D10): ONE bundle with exactly one `/b_free` for every buffer number the
+    allocator holds (every number of every used block, none twice, nothing else), and afterwards
+    the allocator holds no block. -/
+theorem free_all_frees_every_id_once (c : Core) (bs : List Block) (hinv : Inv c.balloc bs) :
+    let ids := blockIds c.balloc.blocks
+    c.stepCore .bfreeall =
+      ({ c with balloc := freeBlocks c.balloc c.balloc.blocks }, .ok,
+       [.bundle none (ids.map fun i => ⟨"/b_free", [ai i]⟩)]) ∧
+    ids.Nodup ∧
+    (∀ x : Int, x ∈ ids ↔ ∃ u ∈ bs, u.used = true ∧ (u.start : Int) ≤ x ∧ x < (u.start + u.size : Nat)) ∧
+    (freeBlocks c.balloc c.balloc.blocks).blocks = [] ∧
+    ∃ bs', Inv (freeBlocks c.balloc c.balloc.blocks) bs' := by
+  have hall := freeBlocks_all hinv
+  have hb := blocks_eq hinv.toWInv
+  have hp : c.balloc.blocks.Pairwise (fun b d => b.start + b.size ≤ d.start) := by
+    rw [hb]; exact (tiles_pairwise bs _ _ hinv.tiles).filter _
+  obtain ⟨hs1, hs2⟩ := blockIds_sorted _ hp
+  refine ⟨rfl, ?_, ?_, hall.1, hall.2.1⟩
+  · exact hs1.imp (fun h => by omega)
+  · intro x
+    constructor
+    · intro hx
+      obtain ⟨u, hu, h1, h2⟩ := hs2 x hx
+      rw [hb] at hu
+      have := List.mem_filter.mp hu
+      exact ⟨u, this.1, by simpa using this.2, h1, h2⟩
+    · rintro ⟨u, hu, huu, h1, h2⟩
+      simp only [blockIds, List.mem_flatMap, List.mem_map, List.mem_range]
+      refine ⟨u, by rw [hb]; exact List.mem_filter.mpr ⟨hu, by simpa using huu⟩, (x - u.start).toNat, by omega, by omega⟩
+
+
+/-- every node command is addressed to the id of the object it was called on -/
+theorem node_cmds_use_object_id {c : Core} {h : Nat} {cmd : String} {args : Option (List Arg)}
+    {p : Packet} {m : Msg} (hp : p ∈ (c.nodeCmd h cmd args).2.2) (hm : m ∈ p.msgs) :
+    ∃ n a, c.nodes[h]? = some n ∧ args = some a ∧ m = ⟨cmd, ai n.id :: a⟩ := by
+  unfold Core.nodeCmd at hp
+  split at hp
+  · exact ⟨_, _, by assumption, rfl, send_msg hp hm⟩
+  · simp [Core.skip] at hp
+
+/-- every buffer command carries the number of the Buffer object it was called on, and is only
+    sent while the object still owns a number -/
+theorem buffer_cmds_use_object_bufnum {α} {c : Core} {h : Nat} {args : Option α}
+    {f : Int → α → String × List Arg} {p : Packet} {m : Msg}
+    (hp : p ∈ (c.bufCmd h args f).2.2) (hm : m ∈ p.msgs) :
+    ∃ b i a, c.bufs[h]? = some b ∧ b.bufnum = some i ∧ args = some a ∧ m = ⟨(f i a).1, (f i a).2⟩ := by
+  unfold Core.bufCmd at hp
+  split at hp
+  · split at hp
+    · exact ⟨_, _, _, by assumption, by assumption, rfl, send_msg hp hm⟩
+    · simp [Core.exc] at hp
+  · simp [Core.skip] at hp
+
+/-- every control-bus command is computed from the index of the ControlBus object it was called
+    on, and is only sent while the object still owns an index -/
+theorem bus_cmds_use_object_index {α} {c : Core} {h : Nat} {args : Option α}
+    {f : Int → Int → α → String × List Arg} {p : Packet} {m : Msg}
+    (hp : p ∈ (c.cbusCmd h args f).2.2) (hm : m ∈ p.msgs) :
+    ∃ b i ch a, c.buses[h]? = some b ∧ b.audio = false ∧ b.index = some i ∧ b.channels = some ch ∧
+      args = some a ∧ m = ⟨(f i ch a).1, (f i ch a).2⟩ := by
+  unfold Core.cbusCmd at hp
+  split at hp
+  · split at hp
+    · simp [Core.exc] at hp
+    · rename_i hna
+      split at hp
+      · exact ⟨_, _, _, _, by assumption, by simpa using hna, by assumption, by assumption, rfl,
+          send_msg hp hm⟩
+      · simp [Core.exc] at hp
+  · simp [Core.skip] at hp
+
+/-! ## the allocators stay valid along every history -/
+
+/-- the three allocators of the client satisfy the C16 representation invariant -/
+structure CoreWf (c : Core) : Prop where
+  balloc : ∃ bs, Inv c.balloc bs
+  cbus : ∃ bs, Inv c.cbus bs
+  abus : ∃ bs, Inv c.abus bs
+
+theorem allocIn_inv {a a' : CBA} {n : Int} {r : Option Nat} (h : ∃ bs, Inv a bs) (hn : 1 ≤ n)
+    (e : allocIn a n = some (a', r)) : ∃ bs, Inv a' bs := by
+  obtain ⟨bs, hi⟩ := h
+  unfold allocIn at e
+  rw [if_neg (by omega)] at e
+  rcases alloc_inv hi (n := n.toNat) (by omega) 0 with ⟨a1, pre, b, post, e1, _, _, _, hi1, _⟩ | ⟨e1, _⟩
+  · rw [e1] at e
+    simp only [Option.some.injEq, Prod.mk.injEq] at e
+    obtain ⟨rfl, _⟩ := e
+    exact ⟨_, hi1⟩
+  · rw [e1] at e
+    simp only [Option.some.injEq, Prod.mk.injEq] at e
+    obtain ⟨rfl, _⟩ := e
+    exact ⟨bs, hi⟩
+
+theorem free_any_inv {a a' : CBA} {x : Nat} (h : ∃ bs, Inv a bs) (e : a.free (some x) = .ok a') :
+    ∃ bs, Inv a' bs := by
+  obtain ⟨bs, hi⟩ := h
+  by_cases hx : x < a.off + a.size
+  · obtain ⟨a1, bs1, e1, hi1, _⟩ := free_inv hi hx
+    rw [e] at e1
+    simp only [Except.ok.injEq] at e1; subst e1
+    exact ⟨bs1, hi1⟩
+  · -- beyond the range: `IndexError`, never `.ok`
+    exfalso
+    have hw := hi.toWInv
+    simp only [CBA.free] at e
+    have hlen : a.array.length = a.size := by
+      rw [hw.array]
+      have := C16.render_length hw.tiles hw.offLe
+      omega
+    have hoff := hw.offLe
+    rw [if_neg (by omega)] at e
+    simp only [CBA.cell, C16.cellL] at e
+    rw [if_neg (by omega)] at e
+    have : a.array[x - a.off]? = none := List.getElem?_eq_none (by omega)
+    rw [this] at e
+    simp [bind, Except.bind] at e
+
+theorem send_core (c : Core) (cmd : String) (a : List Arg) : (c.send cmd a).1 = c := rfl
+theorem skip_core (c : Core) : c.skip.1 = c := rfl
+theorem exc_core (c : Core) (n : String) : (c.exc n).1 = c := rfl
+
+theorem nodeCmd_core (c : Core) (h : Nat) (cmd : String) (a : Option (List Arg)) :
+    (c.nodeCmd h cmd a).1 = c := by
+  unfold Core.nodeCmd; split <;> rfl
+
+theorem kindCmd_core (c : Core) (h : Nat) (g : Bool) (cmd : String) (a : Option (List Arg)) :
+    (c.kindCmd h g cmd a).1 = c := by
+  unfold Core.kindCmd; split
+  · split <;> rfl
+  · rfl
+
+theorem cbusCmd_core {α} (c : Core) (h : Nat) (a : Option α) (f : Int → Int → α → String × List Arg) :
+    (c.cbusCmd h a f).1 = c := by
+  unfold Core.cbusCmd; split
+  · split
+    · rfl
+    · split <;> rfl
+  · rfl
+
+theorem bufCmd_core {α} (c : Core) (h : Nat) (a : Option α) (f : Int → α → String × List Arg) :
+    (c.bufCmd h a f).1 = c := by
+  unfold Core.bufCmd; split
+  · split <;> rfl
+  · rfl
+
+/-- allocation requests of at least one bus channel / buffer (C16: `alloc(n)`, `n ≥ 1`) -/
+def Op.allocOk : Op → Bool
+  | .newBus _ ch _ => decide (1 ≤ ch)
+  | .bufcons n _ _ _ => decide (1 ≤ n)
+  | _ => true
+
+/-- The allocators of the client stay inside the C16 invariant along every history of client
+    calls: the hypotheses `Inv …` of the id theorems hold at every point of every history. -/
+theorem corewf_step (c : Core) (op : Op) (h : CoreWf c) (ha : op.allocOk = true) :
+    CoreWf (c.stepCore op).1 := by
+  cases op with
+  | newBus audio ch idx =>
+    simp only [Op.allocOk, decide_eq_true_eq] at ha
+    simp only [Core.stepCore]
+    split
+    · exact ⟨h.balloc, h.cbus, h.abus⟩
+    · split
+      · rename_i a' x he
+        cases audio
+        · exact ⟨h.balloc, allocIn_inv h.cbus ha (by simpa using he), h.abus⟩
+        · exact ⟨h.balloc, h.cbus, allocIn_inv h.abus ha (by simpa using he)⟩
+      · exact h
+      · exact h
+  | busfree hh =>
+    simp only [Core.stepCore]
+    split
+    · exact h
+    · split
+      · exact h
+      · split
+        · exact ⟨h.balloc, h.cbus, h.abus⟩
+        · split
+          · exact h
+          · rename_i bo _ _ _ _ _ _ a' he
+            cases hb : bo.audio
+            · simp only [hb, Bool.false_eq_true, if_false] at he ⊢
+              exact ⟨h.balloc, free_any_inv h.cbus he, h.abus⟩
+            · simp only [hb, if_true] at he ⊢
+              exact ⟨h.balloc, h.cbus, free_any_inv h.abus he⟩
+  | buf frames ch num alloc cm =>
+    simp only [Core.stepCore]
+    split
+    · exact ⟨h.balloc, h.cbus, h.abus⟩
+    · split
+      · rename_i a' x he
+        exact ⟨allocIn_inv h.balloc (by omega) he, h.cbus, h.abus⟩
+      · exact h
+      · exact h
+  | bufcons n frames ch cm =>
+    simp only [Op.allocOk, decide_eq_true_eq] at ha
+    simp only [Core.stepCore]
+    split
+    · rename_i a' x he
+      exact ⟨allocIn_inv h.balloc ha he, h.cbus, h.abus⟩
+    · exact h
+    · exact h
+  | bfree hh cm =>
+    simp only [Core.stepCore]
+    split
+    · exact h
+    · split
+      · exact h
+      · split
+        · exact h
+        · rename_i _ _ i _ _ a' he
+          refine ⟨?_, h.cbus, h.abus⟩
+          by_cases hneg : i < 0
+          · simp only [hneg, if_true, Except.ok.injEq] at he; subst he; exact h.balloc
+          · simp only [hneg, if_false] at he
+            exact free_any_inv h.balloc he
+  | bfreeall =>
+    simp only [Core.stepCore]
+    obtain ⟨bs, hi⟩ := h.balloc
+    exact ⟨(freeBlocks_all hi).2.1, h.cbus, h.abus⟩
+  | synth paused name tgt act args =>
+    simp only [Core.stepCore]
+    split
+    · split <;> exact ⟨h.balloc, h.cbus, h.abus⟩
+    · exact h
+  | grain name tgt act args => simp only [Core.stepCore]; split <;> exact h
+  | replace t name args same =>
+    simp only [Core.stepCore]
+    split
+    · split <;> exact ⟨h.balloc, h.cbus, h.abus⟩
+    · exact h
+  | group par tgt act =>
+    simp only [Core.stepCore]
+    split
+    · exact ⟨h.balloc, h.cbus, h.abus⟩
+    · exact h
+  | nfree hh flag =>
+    simp only [Core.stepCore]
+    split
+    · split <;> exact h
+    · exact h
+  | release hh time => simp only [Core.stepCore]; split <;> exact h
+  | movb hh t => simp only [Core.stepCore]; split <;> exact h
+  | mova hh t => simp only [Core.stepCore]; split <;> exact h
+  | movh hh tgt =>
+    simp only [Core.stepCore]
+    split
+    · split <;> exact h
+    · exact h
+  | movt hh tgt =>
+    simp only [Core.stepCore]
+    split
+    · split <;> exact h
+    · exact h
+  | reorder act tgt nodes => simp only [Core.stepCore]; split <;> exact h
+  | freedg all => simp only [Core.stepCore]; split <;> exact h
+  | balloc hh cm =>
+    simp only [Core.stepCore]
+    split
+    · exact h
+    · split <;> exact h
+  | bind => exact h
+  | endBind => exact h
+  | raise => exact h
+  | _ => simp only [Core.stepCore, nodeCmd_core, kindCmd_core, cbusCmd_core, bufCmd_core]; exact h
+
+/-- a fresh `Server`: its three allocators satisfy the invariant (`C16.inv_init`) -/
+theorem corewf_init {o : C16.Opts} {lat : Option Rat} {c : Core} (h : Core.init o lat = some c) :
+    CoreWf c := by
+  have key : ∀ (t : Int × Int × Int) (a : CBA), mkAlloc t = some a → ∃ bs, Inv a bs := by
+    intro t a e
+    unfold mkAlloc at e
+    split at e
+    · simp at e
+    · exact ⟨_, (inv_init e).1⟩
+  unfold Core.init at h
+  split at h
+  · rename_i cb ab bb hcb hab hbb
+    split at h
+    · simp at h
+    · split at h
+      · simp only [Option.some.injEq] at h
+        subst h
+        exact ⟨key _ _ hbb, key _ _ hcb, key _ _ hab⟩
+      · simp at h
+  · simp at h
+
+
+/-! ## the add-action table (REGENERATED from `Node.add_actions`) -/
+
+/-- every key of the table maps into the add actions 0..4 of the reference, and the five
+    reference names have the reference numbers -/
+theorem add_actions_table_ok :
+    (∀ e ∈ addActionsStr, 0 ≤ e.2 ∧ e.2 ≤ 4) ∧ (∀ e ∈ addActionsInt, e.2 = e.1 ∧ 0 ≤ e.2 ∧ e.2 ≤ 4) ∧
+    addActionsStr.lookup "addToHead" = some 0 ∧ addActionsStr.lookup "addToTail" = some 1 ∧
+    addActionsStr.lookup "addBefore" = some 2 ∧ addActionsStr.lookup "addAfter" = some 3 ∧
+    addActionsStr.lookup "addReplace" = some 4 := by
+  decide
+
+/-! ## Non-vacuity -/
+
+def exCore : Core :=
+  { nia := ⟨0, 1000, 1000⟩,
+    cbus := (C16.CBA.init 16 0 0).get rfl, abus := (C16.CBA.init 16 0 4).get rfl,
+    balloc := (C16.CBA.init 8 0 0).get rfl, clientId := 0, maxLogins := 1, latency := none }
+
+/-- a group, a synth with a nested array argument, a set inside a bind block -/
+def exOps : List Op :=
+  [.group false .none 0,
+   .synth false "default" (.node 0) 1 (.list [.str "freq", .int 440, .str "amp", .list [.int 8, .list [.int 1]]]),
+   .bind, .set 1 [.str "freq", .int 220], .run 1 false, .endBind,
+   .bind, .nfree 1 true, .raise, .endBind]
+
+example : ((⟨exCore, [], 0, []⟩ : Client).run exOps).1.wire =
+    [.msg ⟨"/g_new", [ai 1000, ai 0, ai 1]⟩,
+     .msg ⟨"/s_new", [as "default", ai 1001, ai 1, ai 1000, as "freq", ai 440, as "amp", .open,
+                      ai 8, .open, ai 1, .close, .close]⟩,
+     .bundle none [⟨"/n_set", [ai 1001, as "freq", ai 220]⟩, ⟨"/n_run", [ai 1001, ai 0]⟩]] := by
+  decide
+
+example : (exOps.map fun op => op.wf exCore) = exOps.map fun _ => true := by decide
+
 
 end Sc3Verif.C17
